@@ -165,11 +165,6 @@ theorem mincStep_spec (args : MincArgs) (blkname : Name) (origVol : Rat) (origRo
     · show w3.cons ++ [cv] = _
       rw [hcons3, hcons1, ← hcv, ← hmb]
 
-/-- the chain of connections MINC creates for one block: fracture → matrix 1 → … → innermost -/
-def mincChain (args : MincArgs) (origVol : Rat) : Nat → Nat → Nat → List Rat → List Con
-  | _, _, _, [] => []
-  | m0, lastblk, base, _ :: r => mincCon args origVol (m0 + 1) lastblk base :: mincChain args origVol (m0 + 1) base (base + 1) r
-
 /-- the whole loop over the matrix levels of one block, when it completes -/
 theorem mincLevels_spec (args : MincArgs) (blkname : Name) (origVol : Rat) (origRock : Nat) (centre : Option (List Rat))
     (vfs : List Rat) : ∀ {w : World} (m0 : Nat) {lastblk : Nat} (iblk : Nat) (idx : List Nat) {w' : World} {iblk' : Nat} {idx' : List Nat},
